@@ -176,7 +176,7 @@ func (cr *checkRun) generate() (mismatch []string, err error) {
 		}
 		for _, fn := range fns {
 			eng.privateNext = private[f]
-			cr.results = append(cr.results, eng.ProveFunction(fn))
+			cr.results = append(cr.results, eng.ProveFunctionViews(fn)...)
 		}
 	}
 	for _, f := range cr.spec.SafetyOnly {
@@ -188,7 +188,7 @@ func (cr *checkRun) generate() (mismatch []string, err error) {
 		}
 		for _, fn := range fns {
 			eng.privateNext = private[f]
-			cr.results = append(cr.results, eng.ProveFunction(fn))
+			cr.results = append(cr.results, eng.ProveFunctionViews(fn)...)
 		}
 	}
 	for _, l := range cr.spec.Lemmas {
@@ -551,9 +551,15 @@ func cmdCheck(args []string) {
 		"explanation":              "every obligation is an SMT query generated from /repo's current source (go/ssa) and the //@ contracts; discharged = unsat of assumptions ∧ path ∧ ¬goal",
 	}
 	ev := evidence{PropertyID: spec.ID, Tier: *tier, Seed: seed, Level: "proof", Coverage: cov, Assumptions: spec.Assumptions, WallS: wall, Violations: violations}
-	os.MkdirAll(filepath.Join(verifDir(), "evidence"), 0755)
+	evDir := filepath.Join(verifDir(), "evidence")
+	if d := os.Getenv("GOVC_EVIDENCE_DIR"); d != "" {
+		// the self-test runs the checks on deliberately broken trees: its evidence must not
+		// replace the evidence of the unchanged tree
+		evDir = d
+	}
+	os.MkdirAll(evDir, 0755)
 	data, _ := json.MarshalIndent(ev, "", " ")
-	os.WriteFile(filepath.Join(verifDir(), "evidence", spec.ID+".json"), data, 0644)
+	os.WriteFile(filepath.Join(evDir, spec.ID+".json"), data, 0644)
 	fmt.Printf("%s %s: claimed=%d discharged=%d violations=%d known-findings=%d undecided-new=%d generated=%d wall=%.1fs\n", spec.ID, *tier, nClaimed, discharged, violations, known, undecided, len(rows), wall)
 	os.Exit(exit)
 }
